@@ -6,6 +6,9 @@ changes, attribute updates, port additions/removals, device updates), master API
 outages of every length (shorter/longer than the master's offline detection and than the slave's session expiry) and
 request latencies; both sync modes. Edits made while the slave is offline belong to C13 and are not generated here.
 """
+import json
+import random
+
 from harness import scenario_c12 as sc
 from harness.core import Prop
 from harness.props.c13 import ATTR_EDITS, base_ports
@@ -21,12 +24,18 @@ class C12(Prop):
             '(several within one 50 ms tick), remote attribute updates (incl. enabled toggles and repeated updates of '
             'the same port so that the slave session supersedes queued port-updates), port additions/removals and '
             're-additions, device updates, master-side value writes and attribute edits while online, 0-2 outages '
-            '(5 s to 300 s, refused or timing out) with remote changes during the outage; checks in between. '
+            '(5 s to 300 s, refused or timing out) with remote changes during the outage; checks in between. About half '
+            'of the histories also have ports with optional attributes (min/max/integer/step) and/or a slave that is '
+            'itself a hub (history_*, device_expression, device_history_*, sometimes device_device_*), with remote '
+            'reconfigurations that drop such an attribute from a port, re-add or change it (events, polls, full '
+            'fetches) and edits of device_* attributes through the master; the oracle compares the exposed attribute '
+            'SET (names through the master\'s device_ renaming, values) with the slave\'s current one. '
             'Non-trivial = at least one mirror check passed while online after >= 3 remote changes; distinct = '
             'distinct (mode, event kinds delivered, outage kinds, final slave state).')
     CORRESPONDENCE = ('Slave.handleEvents/fetchPorts/pollPorts/valueResp/editValue/drain <-> slaves.devices.Slave.'
                       '_listen_loop/_handle_*/fetch_and_update_ports/_poll_once, slaves.ports.SlavePort.'
-                      'push_remote_value/read_value/write_value/get_attr')
+                      'push_remote_value/read_value/write_value/get_attr; Names.presentName <-> the names under which '
+                      'SlavePort.get_attr / to_json show the slave\'s attributes (MASTER_ATTRS read from the live module)')
     TRUSTED = ['the simulated slave (harness/simslave_c12.py) as a correct qToggle device (session queue discipline of '
                'core/sessions.py: dedup, drop-oldest, expiry); tornado HTTP client replaced at fetch_impl; virtual time',
                'the order in which messages reach the master is taken from the run (trace), not predicted']
@@ -112,9 +121,40 @@ class C12(Prop):
             out.append({'mode': 'listen', 'latency': 0.01, 'fail': 'refused', 'poll': 1, 'ports': p1, 'steps': [
                 ['check'], ['down'], ['await_offline'], ['mvalue', 'p1', 9]] + kind + [['wait', 3], ['up'],
                 ['await_online'], ['wait', 5], ['check']]})
+        # the slave is itself a hub: its ports carry history_* / device_expression / device_history_* (the attributes of
+        # ITS slaves' ports), which the master shows one `device_` deeper, next to the slave's own expression / history_*
+        hubp = [{'id': 'p1', 'type': 'number', 'value': 5, 'writable': True, 'enabled': True, 'extra': {
+            'history_interval': 60, 'history_retention': 0, 'device_expression': 'ADD(1, 2)',
+            'device_history_interval': 3600, 'device_history_retention': 86400, 'device_device_expression': 'SUB(9, 1)'}}]
+        # optional attributes that disappear from the slave's port and come back
+        optp = [{'id': 'p1', 'type': 'number', 'value': 5, 'writable': True, 'enabled': True, 'extra': {
+            'min': 0, 'max': 120, 'step': 5, 'integer': True}}]
+        for mode in ('listen', 'poll', 'push'):
+            out.append({'mode': mode, 'latency': 0.01, 'fail': 'refused', 'poll': 1, 'ports': hubp, 'steps': [
+                ['check'], ['rattr', 'p1', 'device_expression', 'MUL($x, 2)'], ['rattr', 'p1', 'expression', 'ADD(3, 4)'],
+                ['wait', 1], ['check'], ['rattrdel', 'p1', 'device_device_expression'], ['wait', 1], ['check'],
+                ['rattrdel', 'p1', 'device_history_interval'], ['rattrset', 'p1', 'device_device_expression', 'OR($a, $b)'],
+                ['wait', 1], ['check']] + ([] if mode == 'push' else [
+                    ['mattr', 'p1', 'device_expression', 'NOT($y)'], ['wait', 1], ['check'],
+                    ['mattr', 'p1', 'device_history_retention', 7200], ['wait', 1], ['check']])})
+            out.append({'mode': mode, 'latency': 0.01, 'fail': 'refused', 'poll': 1, 'ports': optp, 'steps': [
+                ['check'], ['rattrdel', 'p1', 'max'], ['rattrdel', 'p1', 'step'], ['wait', 1], ['check'],
+                ['rvalue', 'p1', 500], ['wait', 1], ['check'], ['rattrset', 'p1', 'max', 1000], ['rattrdel', 'p1', 'min'],
+                ['wait', 1], ['check'], ['rattrset', 'p1', 'step', 1], ['wait', 1], ['check']]})
+        # KNOWN FINDING C12-device-attr-hidden-below-gap: a hub without history support has device_history_* for its
+        # slaves' ports but no history_* of its own: the master shows neither
+        out.append({'mode': 'listen', 'latency': 0.01, 'fail': 'refused', 'poll': 2, 'ports': [{'id': 'p1', 'type': 'number', 'value': 11, 'writable': True, 'enabled': True, 'extra': {'device_history_interval': 3600, 'device_history_retention': 7200, 'device_expression': 'MUL($x, 2)'}}], 'steps': [['check']]})
+        # the attribute disappears during an outage: the full fetch of the reconnect must drop it
+        for mode in ('listen', 'poll'):
+            out.append({'mode': mode, 'latency': 0.03, 'fail': 'refused', 'poll': 2, 'ports': optp + hubp[:0], 'steps': [
+                ['check'], ['down'], ['await_offline'], ['rattrdel', 'p1', 'max'], ['rattrdel', 'p1', 'integer'],
+                ['wait', 200], ['up'], ['await_online'], ['check']]})
         return out
 
     def gen(self, rng, tier):
+        return decorate(self.gen_base(rng, tier))
+
+    def gen_base(self, rng, tier):
         mode = rng.choice(['listen', 'listen', 'listen', 'poll', 'poll', 'push'])
         ports = base_ports(rng, rng.choice([1, 2, 2, 3, 4]))
         for p in ports:
@@ -297,6 +337,10 @@ class C12(Prop):
         # C12-poll-unacknowledged-push-stale-mirror: poll mode, port P written through the master during an outage, and
         # before the 'up' the push of P is made to lose its answer (rdrop P) or is refused (rfail P) while the device's
         # own value of P equals the written value; the master then shows a stale VALUE for exactly that port
+        if finding.get('id') == 'C12-device-attr-hidden-below-gap':
+            # the oracle itself establishes, on the slave's observed port, that the level below the hidden device_*
+            # attribute is missing (scenario_c12.chain_gap); any other attribute disagreement has where='attrs'
+            return failure.kind == 'property' and failure.where == 'attrs-gap'
         if finding.get('id') != 'C12-poll-unacknowledged-push-stale-mirror' or failure.kind != 'property':
             return False
         if case.get('mode') != 'poll' or failure.where != 'value':
@@ -323,6 +367,104 @@ class C12(Prop):
                         hit.add(pid)
                 down = False
         return any(f'port {pid}: master value' in failure.detail for pid in hit)
+
+
+# ---------------------------------------------------------------------------------------------------------------------
+# Attribute SETS: optional attributes that come and go, slaves that are themselves hubs
+# ---------------------------------------------------------------------------------------------------------------------
+
+OPTIONAL_NUMBER = {'min': [0, -5], 'max': [1000, 120], 'integer': [True], 'step': [1]}
+HUB_OWN = {'history_interval': [0, 60], 'history_retention': [0, 3600]}
+HUB_DEVICE = {'device_history_interval': [-1, 300, 3600], 'device_history_retention': [86400, 7200]}
+HUB_EXPR = {'device_expression': ['ADD(1, 2)', 'MUL($x, 2)', 'NOT($y)']}
+HUB_DEEP = {'device_device_expression': ['SUB(9, 1)', 'OR($a, $b)'], 'device_device_history_interval': [5, 7]}
+
+
+def port_extras(r, typ, writable, hub):
+    """Further attributes of a slave port: (name -> candidate values, names that may be dropped and re-added). A hub's
+    port has its own expression (writable) / history_* and, for what ITS slave's port has, device_expression /
+    device_history_*; chains are complete (device_device_x only next to device_x), as on a real chain of hubs.
+    hub == 'nohist': the hub runs without history support — no history_* of its own, but device_history_* for its
+    slaves' (known finding C12-device-history-hidden-without-own-history)."""
+    cand = {}
+    if typ == 'number' and r.random() < 0.7:
+        for n in r.sample(sorted(OPTIONAL_NUMBER), r.randint(1, 4)):
+            cand[n] = OPTIONAL_NUMBER[n]
+    fixed = set()
+    if hub:
+        if hub != 'nohist':
+            cand.update(HUB_OWN)
+            fixed |= set(HUB_OWN)
+        lvl1 = {k: v for k, v in HUB_DEVICE.items() if r.random() < 0.8}
+        if writable and r.random() < 0.85:
+            lvl1.update(HUB_EXPR)
+        cand.update(lvl1)
+        if r.random() < 0.4:      # two levels: the slave's slave is a hub, too
+            for k, v in HUB_DEEP.items():
+                if k[7:] in lvl1:
+                    cand[k] = v
+                    fixed.add(k[7:])
+    return cand, {n for n in cand if n not in fixed}
+
+
+def decorate(case):
+    """Adds, to about half of the generated histories, ports with optional attributes (min/max/integer/step) and slaves
+    that are themselves hubs (history_*, device_expression, device_history_*, sometimes device_device_*), plus remote
+    reconfigurations that DROP such an attribute from a port, re-add it or change it, and edits of the device_*
+    attributes through the master. Every choice derives from the generated case (itself drawn from `rng`), so the rest
+    of the history is what it was."""
+    r = random.Random(json.dumps(case, sort_keys=True))
+    if r.random() < 0.5:
+        return case
+    hub = 'nohist' if r.random() < 0.03 else r.choice([None, None, 'hub', 'hub', 'hub'])
+    cands, drops = {}, {}
+
+    def extras(pid, typ, writable):
+        c, d = port_extras(r, typ, writable, hub)
+        if not c:
+            return None
+        cands[pid], drops[pid] = c, sorted(d)
+        return {n: r.choice(vs) for n, vs in c.items() if n not in d or r.random() < 0.85}
+    for p in case['ports']:
+        e = extras(p['id'], p['type'], p.get('writable', True))
+        if e:
+            p['extra'] = e
+
+    offline = [False]
+
+    def walk(steps, nested):
+        out = []
+        for st in steps:
+            if st[0] == 'down':
+                offline[0] = True
+            elif st[0] == 'await_online':
+                offline[0] = False
+            if st[0] == 'when':
+                st = st[:3] + [walk(st[3], True)]
+            elif st[0] == 'radd' and len(st) == 4 and r.random() < 0.5:
+                e = extras(st[1], st[2], True) if st[1] not in cands else None
+                if e:
+                    st = st + [e]
+            out.append(st)
+            if cands and st[0] in ('rvalue', 'rattr', 'wait', 'check', 'down', 'await_offline', 'radd', 'mvalue') \
+                    and r.random() < 0.3:
+                for _ in range(r.choice([1, 1, 2, 3])):
+                    pid = r.choice(sorted(cands))
+                    n = r.choice(sorted(cands[pid]))
+                    k = r.random()
+                    if k < 0.45 and drops[pid]:
+                        out.append(['rattrdel', pid, r.choice(drops[pid])])
+                    elif k < 0.85 or nested or offline[0] or not n.startswith('device_'):
+                        out.append(['rattrset', pid, n, r.choice(cands[pid][n])])
+                    else:
+                        out += [['mattr', pid, n, r.choice(cands[pid][n])], ['wait', 1]]
+                    if not nested and r.random() < 0.5:
+                        out.append(['wait', r.choice([0.01, 0.06, 0.3, 1])])
+        return out
+    case['steps'] = walk(case['steps'], False)
+    if case['steps'] and case['steps'][-1][0] != 'check':
+        case['steps'] += [['wait', 2], ['check']]
+    return case
 
 
 PROP = C12
